@@ -202,6 +202,20 @@ def stage_oracles(ctx, tr, stage):
         from .oracles.structure import check_structured
 
         st["C03"] = run_oracle(ctx, "C03.structure", check_structured, scfg)
+    if OPTS.get("wellformed_only") and stage != "0":
+        # workload classes outside the domain of restructuring (pre-declared
+        # back edges, parallel arcs): a stage may leave a hierarchy that is not
+        # well formed (C04 does not apply to such inputs); C15/C16/C17 are only
+        # decided on hierarchies that are
+        from .oracles.hierarchy import check_hierarchy
+
+        try:
+            check_hierarchy(scfg)
+            _members_reachable_from_headers(scfg)
+        except Exception:
+            ctx.hit("M-stage.skipped_malformed_hierarchy_of_out_of_domain_input")
+            return
+        ctx.hit("M-stage.wellformed_hierarchy_of_out_of_domain_input")
     if "C16" in act:
         from .oracles.itercheck import check_iteration
 
@@ -217,6 +231,36 @@ def stage_oracles(ctx, tr, stage):
                                OPTS.get("serial_chain", 1))
     for extra in EXTRA_STAGE_ORACLES:
         extra(ctx, tr, stage)
+
+
+def _members_reachable_from_headers(scfg):
+    """every member of every region is reachable from the region's header
+    along non-back arcs inside the region, and the top level from its head
+    (true of every hierarchy made from a closed CFG; garbage input such as a
+    half-declared loop can leave a region whose header is not its head)"""
+    from .hier import levels
+
+    for reg, sc in levels(scfg):
+        g = sc.graph
+        if reg is not None:
+            start = reg.header
+        else:
+            targeted = {t for b in g.values() for t in b.jump_targets}
+            heads = [k for k in g if k not in targeted]
+            if len(heads) != 1:
+                raise ValueError("no unique head")
+            start = heads[0]
+        if start not in g:
+            raise ValueError("header outside region")
+        seen = {start}
+        st = [start]
+        while st:
+            for t in g[st.pop()].jump_targets:
+                if t in g and t not in seen:
+                    seen.add(t)
+                    st.append(t)
+        if len(seen) != len(g):
+            raise ValueError("member not reachable from header")
 
 
 EXTRA_STAGE_ORACLES = []
